@@ -1,6 +1,6 @@
 /-
 Tie between the REGENERATED translations of the validators of package `message`
-(and `topics.checkSys`) — `Mqtt.Generated.Xlate`, produced from /repo's Go source
+(and `topics.checkTopic`) — `Mqtt.Generated.Xlate`, produced from /repo's Go source
 by extract/cmd/xlate on every check — and their hand-written model counterparts
 in `Model/Codec.lean` and `Model/Topics.lean`.
 -/
@@ -121,12 +121,12 @@ theorem ValidConnackError_char (e : Err) :
     have : n = 1 ∨ n = 2 ∨ n = 3 ∨ n = 4 ∨ n = 5 := by omega
     rcases this with h | h | h | h | h <;> subst h <;> simp
 
-/-- `topics.checkSys` ↔ the topic store model's `checkSys` (an error made by
-`fmt.Errorf` exactly when the topic begins with '$'); never a panic: the index
-`topic[0]` is guarded by `len(topic) > 0` -/
-theorem checkSys_is_source (t : List UInt8) :
-    Topics.checkSys t = .ok (if Mqtt.Model.Topics.checkSys t then Err.dyn else Err.nil) := by
-  unfold Topics.checkSys Mqtt.Model.Topics.checkSys
+/-- `topics.checkTopic` ↔ the topic store model's `checkTopic` (an error made by
+`fmt.Errorf` exactly when the topic is empty or begins with '$'); never a panic:
+the index `topic[0]` comes after the `len(topic) == 0` test -/
+theorem checkTopic_is_source (t : List UInt8) :
+    Topics.checkTopic t = .ok (if Mqtt.Model.Topics.checkTopic t then Err.dyn else Err.nil) := by
+  unfold Topics.checkTopic Mqtt.Model.Topics.checkTopic Mqtt.Model.Topics.checkSys
   cases t with
   | nil => simp
   | cons b rest =>
